@@ -1,5 +1,6 @@
 import TrionModel.Driver.Crc
 import TrionModel.Driver.Map
+import TrionModel.Driver.Seg
 /-! `trion-model`: one request per line on stdin, one reply per line on stdout.
 The first word selects the component; every request is self-contained (pure). -/
 open Trion.Driver
@@ -7,6 +8,7 @@ open Trion.Driver
 def dispatch : List String → String
   | "crc" :: r => Crc.handle r
   | "map" :: r => Map.handle r
+  | "seg" :: r => Seg.handle r
   | ["ping"] => "pong"
   | _ => "bad-op"
 
